@@ -706,14 +706,26 @@ def replay(ctx, rep):
 
 META = {
     "category": "proof",
-    "level_text": "Full for the mechanism, with one refuted clause. Coq theorems (Properties/C16.v, closed under the global context): the matcher "
-                  "chosen by the factory model accepts exactly denote(t) for every normalised type (C16_compile_correct, all specialisations: "
-                  "list/set/dict wildcard collapse, str fast paths, None|X, union of two, n-ary union, tuple arities 0/1/2/n); normalisation always "
-                  "produces a type satisfying the factory's invariant (C16_normalize_wf) and never loses a value (C16_normalize_widens); it "
-                  "preserves the meaning exactly when no union brings together two different list types or two different dict types "
-                  "(C16_normalize_denote_partial). The full statement `denote_raw t v = denote (normalize t) v` is REFUTED by the faithful model "
-                  "(C16_normalize_denote_refuted: list[int] | list[str] accepts [1, \"a\"]) and the implementation shows the same behaviour on every "
-                  "path (reported as union-merge:list / union-merge:dict). The model is tied to /repo on every run through 28 check paths per pair.",
+    "level_text": "Full for the mechanism, with one refuted clause whose exact domain of validity is proved. Coq theorems (Properties/C16.v, closed under "
+                  "the global context): the matcher chosen by the factory model accepts exactly denote(t) for every normalised type "
+                  "(C16_compile_correct, all specialisations: list/set/dict wildcard collapse, str fast paths, None|X, union of two, n-ary union, "
+                  "tuple arities 0/1/2/n); normalisation always produces a type satisfying the factory's invariant (C16_normalize_wf) and never "
+                  "loses a value (C16_normalize_widens). The clause `denote_raw t v = denote (normalize t) v` is REFUTED in general by the faithful "
+                  "model (C16_normalize_denote_refuted: list[int] | list[str] accepts [1, \"a\"]; the implementation shows the same behaviour on "
+                  "every path, reported as union-merge:list / union-merge:dict) and PROVED on every type expression that is merge_free, i.e. no "
+                  "union brings together two list types or two dict types after flatten/sort/dedup: there the real normalisation equals the "
+                  "merge-less one (C16_merge_free_normalize), preserves the written meaning (C16_normalize_denote_merge_free) and every check "
+                  "answers denote_raw exactly (C16_check_exact_merge_free); C16_normalize_denote_partial covers the merge-less normalisation of "
+                  "all types. Check paths are now modelled separately, not as one `check`: ordinary evaluation at call time (at/at2/bit_or with "
+                  "Ty::union2, TypeCompiled::new) for isinstance and the host API, the restricted def-time evaluator (type_any_of = Ty::unions, "
+                  "compiler_ty, from_ty, no check for a run-time wildcard, to_frozen) for parameter/return/assignment annotations, an alias to an "
+                  "already compiled frozen type, and new_frozen; C16_paths_agree / C16_paths_agree_frozen_host_and_alias prove that all of them "
+                  "answer `check t v` (using C16_union2_is_unions: union2 = unions [a; b] on normalised types, C16_compiler_ty_normalize, "
+                  "C16_isinstance_matcher). Freezing: C16_freeze_ty_tags_only, C16_freeze_val_tags_only, C16_freeze_invariant and "
+                  "C16_freeze_invariant_sites prove that to_frozen keeps ty and matcher and the freezer changes only representation tags that "
+                  "no matcher reads. Still modelled rather than proved: that the Rust unpackers (ListRef/DictRef/Tuple/SetRef/Record::from_value) "
+                  "ignore the frozen tag is the definition of `view` (held to the code by the frozen/mixed paths of the tie, not by proof). "
+                  "The model is tied to /repo on every run through 28 check paths per pair.",
     "level_note": "Trusted: Coq kernel; extraction (ExtrOcamlBasic only) + ocaml/ty_driver.ml; harness bin types; the two printers of "
                   "tools/props/C16.py. Modelled rather than verified: scalars are abstracted to their kind; the order of union alternatives; "
                   "`type`, struct types, Callable signatures and host-defined types are outside the universe. The tie is differential testing "
